@@ -51,7 +51,7 @@ pub fn layer_a_check(prop: &str, tier: &str) -> i32 {
     let mut idx = 0u64;
     let mut params: BTreeMap<String, Value> = BTreeMap::new();
     params.insert("max_ops".into(), json!(if tier == "quick" { 40 } else { 60 }));
-    if prop == "C02" || prop == "C11" {
+    if matches!(prop, "C02" | "C11" | "C14" | "C16") {
         params.insert("allow_restart".into(), json!(true));
     }
     for (p, b) in &corpus.progs {
@@ -76,6 +76,9 @@ pub fn layer_a_check(prop: &str, tier: &str) -> i32 {
         "C02" => ("one case = one (program, full command history) with the text ledger compared after every operation, every text POKE classified, and final output/exit status compared with the native run; distinct = distinct canonical event log; non-trivial = at least 3 operations", vec!["c02.ledger_checked", "c02.text_pokes", "c02.output_checked"], "exploration"),
         "C03" => ("one case = one (program, history of stepi/step/next/finish from random stops) checked against the admissible-stop inequalities over the reference trace and the llvm-dwarfdump line table; distinct = distinct canonical event log; non-trivial = at least 3 operations", vec!["c03.stepi_checked", "c03.step_checked", "c03.next_checked", "c03.finish_checked"], "exploration"),
         "C05" => ("one case = one (program, history) where at every stop inside traced code the backtrace, CFA and return address are compared with the shadow stack of the reference tracer; distinct = distinct canonical event log; non-trivial = at least 3 operations", vec!["c05.backtrace_checked", "c05.frame_info_checked", "c05.recursive_stack"], "exploration"),
+        "C11" => ("one case = one (program, history ending in drop / detach / restart / exit at a stop of some kind); after teardown the namespace's process table, the text and debug registers at the moment of PTRACE_DETACH, the completion of a detached process, breakpoints across restart and reported exit codes are checked; distinct = distinct canonical event log; non-trivial = at least 3 operations", vec!["c11.drop_checked", "c11.detach_checked", "c11.restart_checked", "c11.drop_in_state_stopped", "c11.drop_in_state_exited"], "exploration"),
+        "C14" => ("one case = one (program, history of watchpoint add/remove by number/address interleaved with continue/finish/restart); after every operation DR0-3/DR7 of the tracee are read by the harness (PTRACE_PEEKUSER) and compared with a 4-slot model, refusals must be side-effect free; distinct = distinct canonical event log; non-trivial = at least 3 operations", vec!["c14.add_checked", "c14.dr_image_checked_nonempty", "c14.duplicate_refused", "c14.fifth_refused"], "exploration"),
+        "C16" => ("one case = one (program, history with injected calls of 0/2/3/6-parameter functions with boundary literals and uncallable requests at random stops); registers, maps, text, position and the callee's own argument log are compared before/after; distinct = distinct canonical event log; non-trivial = at least 3 operations", vec!["c16.call_checked", "c16.call_succeeded", "c16.bad_call_checked"], "exploration"),
         _ => ("layer A run", vec![], "exploration"),
     };
     let cfg = CheckCfg {
@@ -105,7 +108,7 @@ pub fn layer_a_check(prop: &str, tier: &str) -> i32 {
 
 pub fn check(prop: &str, tier: &str) -> i32 {
     match prop {
-        "C01" | "C02" | "C03" | "C05" => layer_a_check(prop, tier),
+        "C01" | "C02" | "C03" | "C05" | "C11" | "C14" | "C16" => layer_a_check(prop, tier),
         _ => {
             eprintln!("no check for {prop}");
             2
